@@ -2,6 +2,7 @@
 package test
 
 import (
+	chunk "github.com/ipfs/boxo/chunker"
 	"bytes"
 	"io"
 	"strconv"
@@ -69,6 +70,32 @@ func VerifFileRoundTrip() {
 	unixfsnode.AddUnixFSReificationToLinkSystem(ls)
 
 	chunker := "size-" + strconv.Itoa(K)
+	if verifrt.Param("varchunks", 0) == 1 {
+		// ANY splitter: n chunks of explorer-chosen sizes 1..3 (see VerifFileStructure)
+		n := 1 + verifrt.Choose(maxN)
+		sizes := make([]int, n)
+		L = 0
+		for i := range sizes {
+			sizes[i] = 1 + verifrt.Choose(3)
+			L += sizes[i]
+		}
+		content = verifrt.Bytes(L)
+		if verifrt.Native() {
+			var model [][]byte
+			at := 0
+			for _, sz := range sizes {
+				model = append(model, content[at:at+sz])
+				at += sz
+			}
+			content, _, chunker = realiseWithRabin(model)
+			L = len(content)
+		} else {
+			verifrt.Replace("github.com/ipfs/boxo/chunker.FromString", func(r io.Reader, _ string) (chunk.Splitter, error) {
+				return &modelSplitter{r: r, sizes: sizes}, nil
+			})
+		}
+		verifrt.Reach("variable-chunks")
+	}
 	switch verifrt.Param("chunker", 0) {
 	case 1: // the default chunker under both spellings, and the content-defined chunkers, on
 		// inputs below their chunk sizes (one chunk: a single raw leaf)
